@@ -1,0 +1,192 @@
+//! Drop-in wrappers around `std::sync::Mutex` and `once_cell::sync::OnceCell`
+//! that report every synchronisation step to an optional listener, so that an
+//! external harness can own the thread schedule. Without a listener they behave
+//! exactly like the wrapped types (poisoning included).
+use std::ops::{Deref, DerefMut};
+use std::panic::Location;
+use std::sync::atomic::{AtomicBool, AtomicUsize, Ordering};
+use std::sync::{LockResult, PoisonError};
+
+#[derive(Clone, Copy, Debug, PartialEq, Eq)]
+pub enum Event {
+    /// about to acquire mutex `id` (scheduling point)
+    LockBefore { id: usize },
+    LockAcquired { id: usize, poisoned: bool },
+    Unlock { id: usize },
+    /// about to call get_or_init on once-cell `id` (scheduling point)
+    OnceBefore { id: usize, set: bool },
+    OnceInitStart { id: usize },
+    OnceInitDone { id: usize },
+    /// between the built-in registration stages (scheduling point)
+    InitStage { stage: u32 },
+}
+
+type Listener = dyn Fn(Event) + Send + Sync + 'static;
+
+static LISTENER: once_cell::sync::OnceCell<Box<Listener>> = once_cell::sync::OnceCell::new();
+static NEXT_ID: AtomicUsize = AtomicUsize::new(1);
+static LABELS: std::sync::Mutex<Vec<(usize, String)>> = std::sync::Mutex::new(Vec::new());
+static SELF_DEADLOCK: AtomicBool = AtomicBool::new(false);
+
+/// Install the process-wide listener (first call wins).
+pub fn set_listener(l: Box<Listener>) -> bool {
+    LISTENER.set(l).is_ok()
+}
+
+pub fn emit(e: Event) {
+    if let Some(l) = LISTENER.get() {
+        l(e)
+    }
+}
+
+/// `file:line type` of the place where the object with this id was created.
+pub fn label_of(id: usize) -> String {
+    let labels = LABELS.lock().unwrap_or_else(|e| e.into_inner());
+    labels
+        .iter()
+        .find(|(i, _)| *i == id)
+        .map(|(_, l)| l.clone())
+        .unwrap_or_default()
+}
+
+/// True once any thread tried to lock a mutex it already holds.
+pub fn self_deadlock_seen() -> bool {
+    SELF_DEADLOCK.load(Ordering::SeqCst)
+}
+
+pub fn clear_self_deadlock() {
+    SELF_DEADLOCK.store(false, Ordering::SeqCst)
+}
+
+fn new_id(loc: &Location, ty: &str) -> usize {
+    let id = NEXT_ID.fetch_add(1, Ordering::SeqCst);
+    let mut labels = LABELS.lock().unwrap_or_else(|e| e.into_inner());
+    labels.push((id, format!("{}:{} {}", loc.file(), loc.line(), ty)));
+    id
+}
+
+fn thread_token() -> usize {
+    thread_local! { static TOKEN: u8 = 0; }
+    TOKEN.with(|t| t as *const u8 as usize)
+}
+
+pub struct Mutex<T> {
+    inner: std::sync::Mutex<T>,
+    id: usize,
+    owner: AtomicUsize,
+}
+
+pub struct MutexGuard<'a, T> {
+    guard: Option<std::sync::MutexGuard<'a, T>>,
+    mutex: &'a Mutex<T>,
+}
+
+impl<T> Mutex<T> {
+    #[track_caller]
+    pub fn new(t: T) -> Self {
+        Mutex {
+            inner: std::sync::Mutex::new(t),
+            id: new_id(Location::caller(), std::any::type_name::<T>()),
+            owner: AtomicUsize::new(0),
+        }
+    }
+
+    pub fn verif_id(&self) -> usize {
+        self.id
+    }
+
+    pub fn lock(&self) -> LockResult<MutexGuard<'_, T>> {
+        let me = thread_token();
+        if self.owner.load(Ordering::SeqCst) == me {
+            // std would deadlock or panic here; make it a deterministic, visible event
+            SELF_DEADLOCK.store(true, Ordering::SeqCst);
+            panic!(
+                "verif_hooks: self-deadlock: thread re-locks mutex {} it already holds",
+                label_of(self.id)
+            );
+        }
+        emit(Event::LockBefore { id: self.id });
+        let r = self.inner.lock();
+        self.owner.store(me, Ordering::SeqCst);
+        emit(Event::LockAcquired {
+            id: self.id,
+            poisoned: r.is_err(),
+        });
+        match r {
+            Ok(g) => Ok(MutexGuard {
+                guard: Some(g),
+                mutex: self,
+            }),
+            Err(p) => Err(PoisonError::new(MutexGuard {
+                guard: Some(p.into_inner()),
+                mutex: self,
+            })),
+        }
+    }
+}
+
+impl<'a, T> Deref for MutexGuard<'a, T> {
+    type Target = T;
+    fn deref(&self) -> &T {
+        self.guard.as_ref().unwrap()
+    }
+}
+
+impl<'a, T> DerefMut for MutexGuard<'a, T> {
+    fn deref_mut(&mut self) -> &mut T {
+        self.guard.as_mut().unwrap()
+    }
+}
+
+impl<'a, T> Drop for MutexGuard<'a, T> {
+    fn drop(&mut self) {
+        self.mutex.owner.store(0, Ordering::SeqCst);
+        // release the real lock first (this is where poisoning happens), then tell the listener
+        drop(self.guard.take());
+        emit(Event::Unlock { id: self.mutex.id });
+    }
+}
+
+pub struct OnceCell<T> {
+    inner: once_cell::sync::OnceCell<T>,
+    id: AtomicUsize,
+}
+
+impl<T> OnceCell<T> {
+    pub const fn new() -> Self {
+        OnceCell {
+            inner: once_cell::sync::OnceCell::new(),
+            id: AtomicUsize::new(0),
+        }
+    }
+
+    fn id(&self, loc: &Location) -> usize {
+        let cur = self.id.load(Ordering::SeqCst);
+        if cur != 0 {
+            return cur;
+        }
+        let fresh = new_id(loc, std::any::type_name::<T>());
+        match self
+            .id
+            .compare_exchange(0, fresh, Ordering::SeqCst, Ordering::SeqCst)
+        {
+            Ok(_) => fresh,
+            Err(other) => other,
+        }
+    }
+
+    #[track_caller]
+    pub fn get_or_init<F: FnOnce() -> T>(&self, f: F) -> &T {
+        let id = self.id(Location::caller());
+        emit(Event::OnceBefore {
+            id,
+            set: self.inner.get().is_some(),
+        });
+        self.inner.get_or_init(|| {
+            emit(Event::OnceInitStart { id });
+            let v = f();
+            emit(Event::OnceInitDone { id });
+            v
+        })
+    }
+}
